@@ -7,6 +7,9 @@ CONSTANTS
   MaxItems = 1000000
   MaxPostErr = 1000000
   Mode = "intended"
-INVARIANTS StreamFidelity HeartbeatsNeverSurface ErrorAfterItsData NoSpuriousError PendingMeansEmpty DeferredErrorHasData
+  Cap = 64
+  BufMode = "fresh"
+  RingSize = 1
+INVARIANTS StreamFidelity HeartbeatsNeverSurface ReceiveBufferUnreferenced QueueBounded HeldMeansFull ErrorAfterItsData NoSpuriousError PendingMeansEmpty DeferredErrorHasData
 POSTCONDITION Post
 CHECK_DEADLOCK FALSE
